@@ -330,6 +330,7 @@ def build(ctx):
     # a "no match" evaluation is one in which relabelling matched nothing (C04), and the set of metrics whose zero-TP value is asked for is
     # the configured one: constructing evaluators must not change a shared metric list (C15's constructor frame)
     include_stage(ctx, "C04")
+    include_stage(ctx, "C12")  # which array is the prediction and which the reference when a group is evaluated (empty prediction vs empty reference)
     include_stage(ctx, "C15", only=lambda mod, sub: [sub.unit("ctor_defaults", lambda: mod.unit_ctor_defaults(sub))])
     ctx.add_bounded("c08-enum", "c08.bounded")
 
